@@ -158,9 +158,11 @@ def run(tier, seed, broken_proof=False):
         for cfg, got in im["refuse"].items():
             evals += 1
             strata["refusal"] += 1
-            if got != "REFUSE":
+            if isinstance(got, list):       # answers instead of an error (any error counts as a refusal: the property does not name its class)
                 violations.append({"kind": "refusal", "config": cfg, "case": c, "expected": "REFUSE", "actual": got, "found_by": "generated",
                                    "theorem_or_observable": "operators refuse empty / inconsistent bases"})
+            elif got != "REFUSE":
+                strata["refusal-by-another-error-class"] += 1
         if len(samples) < 4 and exp is not None and len(exp) >= 2:
             samples.append({"sig": c["sig"], "base": [cond_text(x, c["sig"]) for x in c["base"]], "weakly": c["weakly"], "partition": exp})
     return {
